@@ -182,7 +182,7 @@ class Builder:
     @contextmanager
     def in_block_context(self, context, name):
         """Mark us as being in a certain kind of block context."""
-        context_name = f"__in_context_{name}__"
+        context_name = block_context_key(name)
         old_value = context.get(context_name)
         context[context_name] = True
         try:
@@ -197,7 +197,7 @@ class Builder:
         """Return if we are in any block context given in names."""
         if isinstance(names, str):
             names = [names]
-        names = [f"__in_context_{name}__" for name in names]
+        names = [block_context_key(name) for name in names]
         return any(context.get(name, False) for name in names)
 
     def build_register(self, sexpression, context, gate_context):
@@ -508,6 +508,13 @@ class RebuildMacroInContextVisitor(Visitor):
             return True, new_gate
         else:
             return False, gate
+
+
+def block_context_key(name):
+    """The key under which a context records that we are inside a block of
+    the given kind. It is deliberately not a legal identifier, so no
+    program can refer to it or define it."""
+    return f"<in context {name}>"
 
 
 class GateMemoizer:
